@@ -43,7 +43,8 @@ type key struct {
 	kind keyKind
 	priv crypto.Signer
 	pub  crypto.PublicKey
-	rsaN int // which embedded RSA key (1..3), 0 otherwise
+	rsaN int    // which embedded RSA key (1..3), 0 otherwise
+	note string // structured-key class ("x0", "y00", ...), empty for keys drawn from the PRNG
 }
 
 type pubEqual interface {
@@ -251,6 +252,9 @@ func selfTest() error {
 		return err
 	}
 	if _, err := loadRSA(); err != nil {
+		return err
+	}
+	if err := structSelfTest(); err != nil {
 		return err
 	}
 	// GB/T 32918.5-2017 Annex A.2: message "message digest", ID 1234567812345678
